@@ -79,6 +79,11 @@ class temperature(PseudoNetCDFFile):
         for i, (t, d) in enumerate(times):
             if (t, d) != (self.STIME, self.SDATE):
                 break
+        else:
+            raise ValueError(
+                ('Cannot infer the number of layers: all %d records have ' +
+                 'the same time (a single or incomplete time step)') % records
+            )
         self.SDATE = self.SDATE.view('i')
         self.createDimension('LAY', i - 1)
         self.createDimension('TSTEP', times.shape[0] / i)
